@@ -7,7 +7,6 @@ import (
 	"hash/crc32"
 	"io"
 	"net"
-	"os"
 	"runtime"
 	"strings"
 	"sync"
@@ -178,29 +177,7 @@ func (o *vfNetObs) OnReceive(ctx vivid.ActorContext) {
 // vfFreeAddr hands out loopback ports from a lane private to this process (below the kernel's ephemeral range, so that
 // neither another shard's listener nor anybody's outgoing connection can land on a port this process is about to bind):
 // with ":0" two shards were seen to receive each other's traffic after the probe listener was closed.
-var (
-	vfPortMu   sync.Mutex
-	vfPortNext int
-)
-
-func vfFreeAddr() string {
-	vfPortMu.Lock()
-	defer vfPortMu.Unlock()
-	const lanes, width = 44, 500
-	base := 10000 + (os.Getpid()%lanes)*width
-	for tries := 0; tries < width; tries++ {
-		port := base + vfPortNext%width
-		vfPortNext++
-		a := fmt.Sprintf("127.0.0.1:%d", port)
-		l, err := net.Listen("tcp", a)
-		if err != nil {
-			continue
-		}
-		_ = l.Close()
-		return a
-	}
-	panic("no free loopback port in this process's lane")
-}
+func vfFreeAddr() string { return verifrt.FreeAddr() }
 
 type vfNode struct {
 	sys       *System
